@@ -130,6 +130,25 @@ func vWalWriteLog(format string, lognum int, sizes []int, syncs []int) (*vWalLog
 var vWalPosName = map[chunkPosition]string{fullChunkPosition: "FULL", firstChunkPosition: "FIRST", middleChunkPosition: "MIDDLE", lastChunkPosition: "LAST"}
 var vWalFmtName = map[wireFormat]string{legacyWireFormat: "legacy", recyclableWireFormat: "recyclable", walSyncWireFormat: "walsync"}
 
+// vWalDiskFormat is the on-disk format as documented (chunk type byte -> position, wire format,
+// header size), written down independently of the code's own table: what the driver observes in a
+// file must not depend on the tables of the reader under test.
+var vWalDiskFormat = [13]headerFormat{
+	0:  {chunkPosition: invalidChunkPosition, wireFormat: invalidWireFormat, headerSize: 0},
+	1:  {chunkPosition: fullChunkPosition, wireFormat: legacyWireFormat, headerSize: 7},
+	2:  {chunkPosition: firstChunkPosition, wireFormat: legacyWireFormat, headerSize: 7},
+	3:  {chunkPosition: middleChunkPosition, wireFormat: legacyWireFormat, headerSize: 7},
+	4:  {chunkPosition: lastChunkPosition, wireFormat: legacyWireFormat, headerSize: 7},
+	5:  {chunkPosition: fullChunkPosition, wireFormat: recyclableWireFormat, headerSize: 11},
+	6:  {chunkPosition: firstChunkPosition, wireFormat: recyclableWireFormat, headerSize: 11},
+	7:  {chunkPosition: middleChunkPosition, wireFormat: recyclableWireFormat, headerSize: 11},
+	8:  {chunkPosition: lastChunkPosition, wireFormat: recyclableWireFormat, headerSize: 11},
+	9:  {chunkPosition: fullChunkPosition, wireFormat: walSyncWireFormat, headerSize: 19},
+	10: {chunkPosition: firstChunkPosition, wireFormat: walSyncWireFormat, headerSize: 19},
+	11: {chunkPosition: middleChunkPosition, wireFormat: walSyncWireFormat, headerSize: 19},
+	12: {chunkPosition: lastChunkPosition, wireFormat: walSyncWireFormat, headerSize: 19},
+}
+
 // vWalObserve lists the chunk headers of an intact file by following the length
 // fields: [off, hdr, len, pos, fmt, lognum, so].
 func vWalObserve(b []byte, lognum int) (string, error) {
@@ -151,10 +170,10 @@ func vWalObserve(b []byte, lognum int) (string, error) {
 			off = (off/blockSize + 1) * blockSize
 			continue
 		}
-		if typ >= len(headerFormatMappings) {
+		if typ >= len(vWalDiskFormat) {
 			return "", fmt.Errorf("observe: bad chunk type %d at %d", typ, off)
 		}
-		hf := headerFormatMappings[typ]
+		hf := vWalDiskFormat[typ]
 		ln := int(binary.LittleEndian.Uint16(b[off+4 : off+6]))
 		crcv := binary.LittleEndian.Uint32(b[off : off+4])
 		ln2, so := lognum, uint64(0)
